@@ -122,6 +122,16 @@ func (k *Kind) Open(addr string, peer bool, hold bool) *Sock {
 	return x
 }
 
+// OpenQ is Open with the queue lengths set to q before the peer connects (per-pipe queues are
+// sized when the pipe is added).
+func (k *Kind) OpenQ(addr string, hold bool, q int) *Sock {
+	x := k.Open(addr, false, hold)
+	_ = x.S.SetOption(mangos.OptionWriteQLen, q)
+	x.P = x.EP.Connect()
+	kit.Quiesce()
+	return x
+}
+
 // Quiet sets options that keep timers from interfering (long survey time, no retries).
 func (x *Sock) Quiet() {
 	_ = x.S.SetOption(mangos.OptionSurveyTime, 24*time.Hour)
